@@ -130,6 +130,7 @@ pub fn profile(prop: Prop, thorough: bool) -> Profile {
             C06 | C08 | C10 | C12 | C17 => 8,
             C07 => 15,
             C15 | C16 => 6,
+            C02 | C03 => 5,
             _ => 0,
         },
         z_feature_w: match prop {
